@@ -20,14 +20,14 @@ package transport
 //@     (forall k uint64 :: k < 8 ==> b[k] == 0) && (forall c uint64 :: !S[c]) ==> winInv(b, 0, S)
 
 //@ func (s SlidingWindow) Check(seq uint64) (ok bool)
-//@   property C14
+//@   property C14 C15
 //@   pure
 //@   logical S set[uint64]
 //@   requires seq < 1<<63 && winInv(s.blocks, s.wt, S)
 //@   ensures  ok <==> (!S[seq] && seq+448 >= s.wt)
 
 //@ func (s *SlidingWindow) Mark(seq uint64)
-//@   property C14
+//@   property C14 C15
 //@   logical S set[uint64]
 //@   modifies s.blocks, s.wt
 //@   requires seq < 1<<63 && winInv(s.blocks, s.wt, S)
@@ -996,3 +996,21 @@ package transport
 //@        err == nil && n == len(resultof(common.DeadlineChan.Recv, v)) && bytes(b[:n]) == mAll && !called(bytes.Buffer.Write)
 //@   ensures old(buffered(c)) == 0 && resultof(common.DeadlineChan.Recv, err) == nil && len(b) < len(resultof(common.DeadlineChan.Recv, v)) ==>
 //@        n == 0 && err != nil && callcount(bytes.Buffer.Write) == 1 && same(argof(bytes.Buffer.Write, p), resultof(common.DeadlineChan.Recv, v))
+
+// (C19) the server runs with the configuration it was given: in particular hidden mode is exactly what the caller asked
+// for (init reads the configuration, it does not rewrite it).
+// (the names of the server's OWN certificate - local configuration, not peer input - have one of the four known types:
+// init formats them with Name.String, which panics otherwise)
+//@ macro ownNamesKnown(c) = c != nil ==> (forall k int :: 0 <= k && k < len(c.IDChunk.Blocks) ==>
+//@        (c.IDChunk.Blocks[k].Type == certs.TypeDNSName || c.IDChunk.Blocks[k].Type == certs.TypeIPv4Address || c.IDChunk.Blocks[k].Type == certs.TypeIPv6Address || c.IDChunk.Blocks[k].Type == certs.TypeRaw))
+//@ func (s *Server) init() (err error)
+//@   property C19
+//@   atomic
+//@   requires ownNamesKnown(s.config.Certificate)
+//@   ensures s.config.IsHidden == old(s.config.IsHidden)
+//@   loop 1
+//@     invariant ownNamesKnown(s.config.Certificate) && s.config.Certificate != nil && s.config.IsHidden == old(s.config.IsHidden)
+//@ func NewServer(conn UDPLike, config ServerConfig) (s *Server, err error)
+//@   property C19
+//@   requires ownNamesKnown(config.Certificate)
+//@   ensures s != nil && s.config.IsHidden == config.IsHidden
